@@ -37,7 +37,7 @@ class _C16(Spec):
     expected = "no operation touches a set's contents without holding that set's lock in the required mode on every operand; no data race; conflicting operations have disjoint lock windows"
     rule = ("regenerated facts: Gen/LockSeq.lean (per operation x operand assignment AB/BA/AA/A/B: recorded lock events aligned with the source's map accesses) with `ops_disciplined` re-proved by "
             "`decide`; `locks seqs`: the sequences compiled into the model vs a fresh recording by the oracle; direct evaluation on the real code: every ordered pair of the 18 operations "
-            "(648 pairs incl. aliased operands) run concurrently on shared operands under the Go race detector (separate -race build of the oracle), reports attributed to utils/mapset frames.")
+            "(1296 runs: every ordered pair of operations on shared operands that are constructor-made, aliased, handed back by an earlier operation, or populated and then cleared) run concurrently on shared operands under the Go race detector (separate -race build of the oracle), reports attributed to utils/mapset frames.")
     assumptions = LOCK_ASSUME + ["linearizability is proved on the plain reader/writer-lock machine with data (Serial.lean) for any access semantics; that its executions include those of the writer-preferring lock is proved by refinement (Refine.lean); on the real code it is checked on seeded random concurrent histories (locks linhist)"]
 
     def streams(self, tier, rng):
